@@ -691,7 +691,7 @@ EXTERN_DLL_EXPORT CPaths64 InflatePaths64(const CPaths64 paths,
   Paths64 pp;
   pp = ConvertCPathsToPathsT(paths);
   ClipperOffset clip_offset( miter_limit,
-    arc_tolerance, reverse_solution);
+    arc_tolerance, false, reverse_solution);
   clip_offset.AddPaths(pp, JoinType(jointype), EndType(endtype));
   Paths64 result;
   clip_offset.Execute(delta, result);
@@ -722,7 +722,7 @@ EXTERN_DLL_EXPORT CPaths64 InflatePath64(const CPath64 path,
     Path64 pp;
     pp = ConvertCPathToPathT(path);
     ClipperOffset clip_offset(miter_limit,
-        arc_tolerance, reverse_solution);
+        arc_tolerance, false, reverse_solution);
     clip_offset.AddPath(pp, JoinType(jointype), EndType(endtype));
     Paths64 result;
     clip_offset.Execute(delta, result);
